@@ -17,6 +17,8 @@
 (*   src  the source text as passed (C string, std::string, content of the other            *)
 (*        FixedString, initializer list, rendered sprintf text);  ch  a character code      *)
 (*                                                                                          *)
+(* Characters are byte codes 0..255; NUL (0) is an ordinary character except in the         *)
+(* C-string source kinds.                                                                   *)
 (* Dom(x, y, a) is the documented domain (DESIGN A.3): the arguments for which the          *)
 (* std::string operation of the same name is defined and does not throw.  Inside the domain *)
 (* the new content is the std::string result cut off at L and observers return the          *)
@@ -85,11 +87,13 @@ Piece(x, a) ==
      [] a.sk \in PartKinds         -> Sub(a.src, a.p2, a.c2)
      [] a.sk \in ItKinds           -> SubSeq(Base(x, a), a.p2 + 1, a.p2 + a.c2)
      [] OTHER                      -> <<>>
+\* NUL is an ordinary character of the content and of std::string / FixedString / (count, ch) / char /
+\* initializer-list / iterator sources; only the C-string source kinds must be free of it (A.3)
+CStrKinds == {"cstr", "cstr_cnt"}
 PieceDom(x, a) ==
-   /\ NoNul(a.src)
+   /\ (a.sk \in CStrKinds \/ a.op = "sprintf") => NoNul(a.src)
    /\ IsFs(a) => Len(a.src) <= L
-   /\ CASE a.sk = "cnt_ch"         -> a.c2 >= 0 /\ a.ch # 0
-        [] a.sk = "ch"             -> a.ch # 0
+   /\ CASE a.sk = "cnt_ch"         -> a.c2 >= 0
         [] a.sk = "cstr_cnt"       -> a.c2 >= 0 /\ a.c2 <= Len(a.src)
         [] a.sk \in PartKinds      -> a.p2 >= 0 /\ a.p2 <= Len(a.src)
         [] a.sk \in ItKinds        -> a.p2 >= 0 /\ a.c2 >= 0 /\ a.p2 + a.c2 <= Len(Base(x, a))
@@ -105,7 +109,7 @@ PosOK(x, p) == p >= 0 /\ p <= Len(x)              \* index/pos <= length()
 ItOK(x, p) == p >= 0 /\ p < Len(x)                \* iterator to an existing character (not end())
 
 Dom(x, y, a) ==
-   /\ NoNul(x) /\ PieceDom(x, a)
+   /\ PieceDom(x, a)
    /\ CASE a.op = "assign"    -> TRUE
         [] a.op = "clear"     -> TRUE
         [] a.op = "insert"    -> IF a.tk = "idx" THEN PosOK(x, a.p1) ELSE ItOK(x, a.p1)
@@ -127,7 +131,7 @@ Dom(x, y, a) ==
         [] a.op = "compare"   -> PosOK(x, a.p1)
         [] a.op \in AffixOps  -> a.op = "contains" => Len(Piece(x, a)) > 0
         [] a.op = "rel"       -> TRUE
-        [] a.op = "obs"       -> TRUE
+        [] a.op = "obs"       -> a.tk = "ostream" => NoNul(x)        \* operator<< writes c_str(): claimed for NUL-free content only
         [] a.op = "get"       -> CASE a.tk = "at"  -> a.p1 >= 0 /\ a.p1 # Len(x)      \* at(length()) is not claimed
                                    [] a.tk = "idx" -> PosOK(x, a.p1)
                                    [] OTHER        -> TRUE                           \* front / back
@@ -195,7 +199,9 @@ Ri(x, y, a) ==
 Rs(x, y, a) ==
    CASE a.op = "substr" -> Sub(x, a.p1, a.c1)
      [] a.op = "copy"   -> Sub(x, a.p1, a.c1)
-     [] a.op = "obs"    -> IF a.tk \in {"empty", "length"} THEN <<>> ELSE x      \* str, c_str, data, data_mut, ostream
+     [] a.op = "obs"    -> IF a.tk \in {"empty", "length"} THEN <<>>
+                           ELSE IF a.tk = "c_str" THEN SubSeq(x, 1, FirstNul(x))     \* the C string ends at the first NUL
+                           ELSE x                                                   \* str, data, data_mut, ostream
      [] a.op = "iter"   -> CASE a.tk \in {"fwd", "fwd_post"} -> x
                              [] a.tk \in {"rev", "rev_post"} -> Rev(x)
                              [] a.tk = "back_from" -> Rev(SubSeq(x, 1, a.p1 + 1))
